@@ -246,8 +246,11 @@ func (c *c16Client) plan(ci CallInfo) Outcome {
 		}
 	}
 	c.calls = append(c.calls, c16Call{Verb: ci.Verb, Key: key, Dry: ci.DryRun, Body: c.pending, Idx: idx, Phase: phase, Mode: c.mode})
-	if phase == "real" && c.mode == "est" && idx >= 0 {
-		c.thirdParty(idx)
+	if phase == "real" && c.mode == "est" {
+		c.thirdParty(-1) // "between the phases": before the first real write
+		if idx >= 0 {
+			c.thirdParty(idx)
+		}
 	}
 	if ci.IsWrite() {
 		for _, b := range s.RejBodies {
@@ -505,6 +508,12 @@ func c16RunStep(st *Store, s *c16Step) (c16StepObs, []c16Call, []c16Act) {
 		}
 	}
 	st.Plan = nil
+	if cl.mode == "est" && s.Op != "release" && panicked == "" && !st.Crashed() && err == nil && !requeue {
+		// Establish succeeded without issuing a single real write (nothing to do for an
+		// inactive revision whose objects are absent; an empty package): the validate phase
+		// was passed, so the third party's "between the phases" writes still happen
+		cl.thirdParty(-1)
+	}
 	switch {
 	case panicked != "":
 		obs.Result = "panic: " + panicked
@@ -1006,6 +1015,9 @@ func c16GenTP(r *Rng, s *c16Step, store []c16Obj, me int) []c16Act {
 			key = s.Objs[r.Intn(n)].Key
 		}
 		a := c16Act{I: i, Act: "del", Key: key, Owners: []c16Ref{}}
+		if r.Chance(1, 6) {
+			a.I = -1 // between the validate phase and the establish phase, whichever object is written first
+		}
 		if r.Chance(2, 5) {
 			a.Act = "put"
 			a.Body = r.Range(1, 4)
